@@ -23,7 +23,7 @@ NAMES = ['A', 'B', 'C', 'D', 'D0', 'Tz', 'D3', 'G', 'Pr', 'P', 'Pk', 'Pw', 'Mv',
 # products of two in the quick tier: one or two representatives per class and per space
 PAIRS_QUICK = ['A', 'C', 'D', 'D0', 'Tz', 'D3', 'G', 'GT', 'Pr', 'PrT', 'P', 'PT', 'Pk', 'PkT', 'Mv', 'MvT', 'Mvi', 'Rs', 'RsT', 'Rv', 'Rn', 'Bd',
                'R1', 'R3', 'R1T', 'Hw', 'Pl', 'R1i', 'Hwi', 'Pli', 'AI', 'DI', 'I2v', 'Iqu', 'H2', 'Hq', 'Mc', 'McT', 'Ma', 'Mb', 'Mp', 'Mq',
-               'Dl', 'Prl', 'BDl', 'BRl', 'BCl', 'Hl', 'Ob', 'Pp', 'Pn', 'BRt', 'BCt']
+               'Dl', 'Prl', 'PrlT', 'DlI', 'BDl', 'BRl', 'BCl', 'Hl', 'Ob', 'Pp', 'Pn', 'BRt', 'BCt']
 SOLO = ['Dq', 'DqI', 'Dh', 'Dw', 'DwI']       # extreme parameter values (tiny / huge diagonal entries): used alone only
 POOL_QUICK = ['A', 'D', 'AI', 'DI', 'I2v', 'H2', 'G', 'GT', 'Pr', 'R1', 'R1T', 'Hw', 'Pl', 'Tz', 'D0']
 POOL2_EXTRA = ['BCl', 'BCt', 'BRl', 'BRt']      # pytree-valued blocks over different containers: one- and two-slot templates only
@@ -76,6 +76,31 @@ def generate(tier: str, templates=None) -> fx.TlcResult:
 
 
 # ----------------------------------------------------------------------------- worker side
+
+LEAFWISE_KINDS = {'diag', 'diagq', 'dinv', 'index', 'T', 'hom', 'id', 'mvax', 'comp', 'add'}
+
+
+def _retype_mixed(obj):
+    """A mixed-dtype pytree: inside every list / tuple / dict structure the leaves at odd positions become float64
+    (the same rule for the term, its expected input and output structures)."""
+    if isinstance(obj, dict):
+        if obj.get('k') in ('list', 'tuple', 'dict') and 'ch' in obj and 'keys' in obj and 'sh' in obj:
+            ch = [(_retype(c, 'f64') if (i % 2 == 1 and c.get('k') == 'leaf') else _retype_mixed(c)) for i, c in enumerate(obj['ch'])]
+            return dict(obj, ch=ch)
+        return {k: _retype_mixed(v) for k, v in obj.items()}
+    if isinstance(obj, list):
+        return [_retype_mixed(v) for v in obj]
+    return obj
+
+
+def mixed_tree_ok(case) -> bool:
+    """Subjects replayed on a pytree with float32 and float64 leaves: leaf-wise operators on a list of leaves and their
+    products / sums (block operators combine leaves of different dtypes and are left out)."""
+    def kinds(t):
+        return {t.get('k')} | {k for c in t.get('ch', []) for k in kinds(c)}
+    return (not case.get('refused') and case['ins'].get('k') == 'list' and case['outs'].get('k') == 'list'
+            and kinds(case['term']) <= LEAFWISE_KINDS)
+
 
 def _retype(obj, dt: str):
     """Uniformly replace the leaf dtype f32 by `dt` in a term / structure (JSON)."""
@@ -165,7 +190,9 @@ def execute(case: dict) -> dict:
     tol = 2e-4 if dt == 'f32' else 1e-9
     out = {'id': case['id'], 'obs': {}, 'x64': x64, 'dt': dt}
     o = out['obs']
-    term = _retype(case['term'], dt) if dt != 'f32' else case['term']
+    term = _retype(case['term'], dt) if dt not in ('f32', 'mix') else case['term']
+    if dt == 'mix':
+        term = _retype_mixed(case['term'])
     b = terms.Builder()
     mixed = dt == 'i32'
     if mixed:
@@ -188,8 +215,8 @@ def execute(case: dict) -> dict:
         out['build_exc'] = f'{type(exc).__name__}: {str(exc)[:300]}'
         return out
     want = terms.mat_to_float(case['den'])
-    ins = _retype(case['ins'], dt)
-    outs = _retype(case['outs'], dt)
+    ins = _retype(case['ins'], dt) if dt != 'mix' else _retype_mixed(case['ins'])
+    outs = _retype(case['outs'], dt) if dt != 'mix' else _retype_mixed(case['outs'])
     if mixed and _has_kind(case['term'], FLOAT_PARAM_KINDS):
         outs = _retype(case['outs'], 'f32')          # promote(int32 data, float32 parameters)
         want = want * 0.5                            # exactly one float-parameter factor (mixed_ok)
@@ -567,8 +594,12 @@ def run(prop: str, tier: str, seed: int) -> int:
     nrun = 0
     if prop == 'C04':
         modes = modes + [(False, 'i32')]
+    if prop == 'C05':
+        modes = modes + [(True, 'mix')]       # float32 and float64 leaves in one pytree (64-bit mode)
     for x64, dt in modes:
         sub = [dict(c, dt=dt) for c in jobs]
+        if dt == 'mix':
+            sub = [dict(c, dt=dt, groups=groups, id=c['id']) for c in sel if mixed_tree_ok(c)]
         if dt == 'i32':
             # integer data with floating-point parameters: every suitable subject TLC emitted, not only the sample
             sub = [dict(c, dt=dt, groups=groups, generic=(prop == 'C04'), id=c['id']) for c in sel if mixed_ok(c)]
